@@ -39,8 +39,11 @@ def sym_device(path, tag=""):
     return dict(dev=dev, key=key, dev_id=dev_id, dev_key=dev_key)
 
 
-def login_reply(path, tag="login"):
-    """12 free bytes (session = bytes 8..11) + tail of symbolic length 0..1012"""
+def login_reply(path, tag="login", fixed=None):
+    """12 free bytes (session = bytes 8..11) + tail of symbolic length 0..1012; fixed=n: exactly n free bytes, no tail"""
+    if fixed is not None:
+        head = fresh_bytes(path, tag + "_b", fixed)
+        return head, SymSeq("bytes", head.items[8:12])
     head = fresh_bytes(path, tag + "_b", 12)
     tail, n = fresh_blob(path, tag + "_tail", 0, 1012)
     return SymSeq("bytes", head.items + [tail]), SymSeq("bytes", head.items[8:12])
@@ -187,7 +190,7 @@ def prepare_op(path, case, zone_rows=None, reply_plan=None, dev=None, api=None, 
     run.conn = conn
     run.nframes0 = len(conn.frames)
     # replies
-    lr, session = login_reply(path, tag + "login")
+    lr, session = login_reply(path, tag + "login", fixed=case.get("lr_fixed"))
     run.session = session
     run.replies = [lr]
     plan = reply_plan or default_reply_plan
